@@ -7,3 +7,96 @@ package kv
 // Ghost effect counters: mutating object-store requests issued so far.
 //@ ghostvar puts int
 //@ ghostvar deletes int
+// The most recent PUT request: target prefix and object name, and whether it
+// succeeded (ordering obligations of commit are phrased over these).
+//@ ghostvar lastPutPrefix string
+//@ ghostvar lastPutName string
+//@ ghostvar lastPutOK bool
+
+//@ global ErrReadOnly nonnil
+
+// Object invariant of an open DB handle.
+//@ spec dbOK(s *DB) bool = s != nil && s.crdt.Mast != nil && s.crdt.Created != nil && s.root != nil && s.merged != nil && s.cfg != nil && s.s3Client != nil
+
+// A commit has nothing to do when nothing is buffered and the handle is based
+// on at most one version.
+//@ spec noop(s *DB) bool = !(s.tombstoned || mastDirty(*s.crdt.Mast)) && !s.tombstoned &&
+//@     ((s.crdt.Source != nil && len(s.crdt.MergeSources) <= 1) || (s.crdt.Source == nil && len(s.crdt.MergeSources) == 0))
+
+// gob encoding of a version object (encoding/gob is external): no effect on
+// the state the contracts talk about.
+//@ func marshalGob
+//@   trusted
+//@   modifies nothing
+
+//@ func (DB).IsDirty
+//@   requires s.crdt.Mast != nil
+//@   modifies nothing
+//@   ensures result == (s.tombstoned || mastDirty(*s.crdt.Mast))
+
+//@ func (DB).Size
+//@   requires s.crdt.Mast != nil
+//@   modifies nothing
+//@   ensures result == mastSize(*s.crdt.Mast)
+
+// Set / Tombstone: a read-only handle rejects the write and stays unchanged (C13).
+//@ func (*DB).Set
+//@   requires dbOK(s)
+//@   modifies *s.crdt.Mast
+//@   ensures readonly: imp(s.readonly, result == ErrReadOnly && *s.crdt.Mast == old(*s.crdt.Mast))
+//@   ensures stored: imp(result == nil, has(T(*s.crdt.Mast), akey(key)) && T(*s.crdt.Mast)[akey(key)] == updated(old(has(T(*s.crdt.Mast), akey(key))), old(T(*s.crdt.Mast)[akey(key)]), crdtpub.Value{ModEpochNanos: wrap64(ns(when)), Value: value}, ite(s.crdt.Source != nil, *s.crdt.Source, "")))
+//@   ensures others: forall a int :: imp(result == nil && a != akey(key), has(T(*s.crdt.Mast), a) == old(has(T(*s.crdt.Mast), a)) && T(*s.crdt.Mast)[a] == old(T(*s.crdt.Mast)[a]))
+
+//@ func (*DB).Tombstone
+//@   requires dbOK(s)
+//@   modifies *s.crdt.Mast
+//@   ensures readonly: imp(s.readonly, result == ErrReadOnly && *s.crdt.Mast == old(*s.crdt.Mast))
+//@   ensures stored: imp(result == nil, has(T(*s.crdt.Mast), akey(key)) && T(*s.crdt.Mast)[akey(key)] == updated(old(has(T(*s.crdt.Mast), akey(key))), old(T(*s.crdt.Mast)[akey(key)]), crdtpub.Value{ModEpochNanos: wrap64(ns(when)), TombstoneSinceEpochNanos: wrap64(ns(when))}, ite(s.crdt.Source != nil, *s.crdt.Source, "")))
+//@   ensures others: forall a int :: imp(result == nil && a != akey(key), has(T(*s.crdt.Mast), a) == old(has(T(*s.crdt.Mast), a)) && T(*s.crdt.Mast)[a] == old(T(*s.crdt.Mast)[a]))
+
+//@ func (*DB).Get
+//@   requires dbOK(s) && typeis(value, *crdtpub.Value) && value.(*crdtpub.Value) != nil
+//@   modifies *value.(*crdtpub.Value)
+//@   ensures found: imp(err == nil, result0 == (has(T(*s.crdt.Mast), akey(key)) && !tomb(T(*s.crdt.Mast)[akey(key)])))
+//@   ensures value: imp(err == nil && result0, *value.(*crdtpub.Value) == T(*s.crdt.Mast)[akey(key)])
+//@   ensures error: imp(err != nil, !result0)
+
+// Clone: an independent handle on the same snapshot, same read-only flag.
+//@ func (*DB).Clone
+//@   requires dbOK(s)
+//@   modifies nothing
+//@   ensures imp(err == nil, result0 != nil && fresh(result0) && dbOK(result0) && fresh(result0.crdt.Mast) && *result0.crdt.Mast == *s.crdt.Mast &&
+//@       result0.readonly == s.readonly && result0.tombstoned == s.tombstoned && result0.crdt.Source == s.crdt.Source && result0.crdt.Created == s.crdt.Created &&
+//@       result0.crdt.MergeSources == s.crdt.MergeSources && result0.mergedRoots == s.mergedRoots && result0.root == s.root && result0.merged == s.merged && result0.s3Client == s.s3Client)
+//@   ensures imp(err != nil, result0 == nil)
+
+//@ func (*DB).Cancel
+//@   modifies nothing
+
+// moveMergedRoots retires the parents of a published version: each parent is
+// first copied to merged/ and only after that copy succeeded deleted from
+// current/; the new version itself is never deleted; failures stop the loop.
+//@ func (*DB).moveMergedRoots
+//@   requires dbOK(s) && !s.readonly
+//@   requires published: lastPutOK && lastPutPrefix == s.root.Prefix && lastPutName == newRoot
+//@   modifies puts, deletes, lastPutPrefix, lastPutName, lastPutOK
+//@   ensures puts >= old(puts) && deletes >= old(deletes)
+//@   loop 1 invariant puts >= old(puts) && deletes >= old(deletes)
+//@   at call:kv.S3Interface.DeleteObjectWithContext assert copy-before-delete: lastPutOK && lastPutPrefix == s.merged.Prefix && lastPutName == key
+//@   at call:kv.S3Interface.DeleteObjectWithContext assert never-the-new-version: key != newRoot
+
+// Commit (C04, C13, C16): nothing is written when there is nothing to commit
+// or the handle is read-only; the version object is written only after a
+// successful flush; parents are retired only after the version was published;
+// a failed commit retires nothing.
+//@ func (*DB).Commit
+//@   requires dbOK(s)
+//@   modifies puts, deletes, lastPutPrefix, lastPutName, lastPutOK, *s.crdt.Mast, s.mergedRoots, s.crdt.MergeSources, s.crdt.Source, s.tombstoned
+//@   ensures noop: imp(old(noop(s)), err == nil && result0 == old(s.crdt.Source) && puts == old(puts) && deletes == old(deletes))
+//@   ensures readonly: imp(s.readonly, puts == old(puts) && deletes == old(deletes))
+//@   ensures readonly-error: imp(s.readonly && !old(noop(s)), err == ErrReadOnly && result0 == nil)
+//@   ensures failed-retires-nothing: imp(err != nil, deletes == old(deletes))
+//@   ensures committed: imp(err == nil && !old(noop(s)), result0 != nil && s.crdt.Source == result0 && len(s.crdt.MergeSources) == 1 && s.crdt.MergeSources[0] == *result0 && !s.tombstoned && has(s.mergedRoots, *result0) && len(s.mergedRoots) == 1 && puts > old(puts))
+//@   ensures content-kept: forall a int :: imp(err == nil, has(T(*s.crdt.Mast), a) == old(has(T(*s.crdt.Mast), a)) && T(*s.crdt.Mast)[a] == old(T(*s.crdt.Mast)[a]))
+//@   at call:s3.(Persist).Store assert publish-after-flush: !mastDirty(*s.crdt.Mast) && root != nil
+//@   at call:s3.(Persist).Store assert to-current: true
